@@ -320,6 +320,7 @@ type scriptG struct {
 	dones     int32
 	cur, peak int32
 	wipe      bool // done() resets the families, as a caching gatherer may
+	real      prometheus.Gatherer // when set, Gather is answered by a real prometheus.Registry
 	// blocking mode (sched/stress)
 	block   bool
 	yield   int
@@ -364,7 +365,18 @@ func (g *scriptG) gatherCommon() ([]*dto.MetricFamily, error) {
 	for i := 0; i < g.yield; i++ {
 		runtime.Gosched()
 	}
+	if g.real != nil {
+		return g.real.Gather()
+	}
 	return g.fams, err
+}
+
+// a collector that fails completely: a real Registry then returns an empty, non-nil slice and an error
+type failingCollector struct{ desc *prometheus.Desc }
+
+func (f failingCollector) Describe(ch chan<- *prometheus.Desc) { ch <- f.desc }
+func (f failingCollector) Collect(ch chan<- prometheus.Metric) {
+	ch <- prometheus.NewInvalidMetric(f.desc, errors.New("collector broke"))
 }
 
 type plainG struct{ g *scriptG }
@@ -404,6 +416,7 @@ type reqCase struct {
 	registry    int // 0 none, 1 fresh, 2 shared with an earlier handler (AlreadyRegistered path)
 	transact    bool
 	server      bool
+	emptyShape  int // nothing gathered: 0 nil slice, 1 empty non-nil slice, 2 a real Registry whose only collector fails
 }
 
 var realZstd = promhttp.VerifZstdWriter()
@@ -464,6 +477,21 @@ func runRequest(c *reqCase) reqResult {
 		ref[i] = proto.Clone(mf).(*dto.MetricFamily)
 	}
 	g := &scriptG{fams: c.fams, err: c.gerr, wipe: c.transact, entered: make(chan int, 64)}
+	if len(c.fams) == 0 {
+		switch c.emptyShape {
+		case 1:
+			g.fams = []*dto.MetricFamily{}
+		case 2:
+			if c.gerr != nil {
+				rr := prometheus.NewRegistry()
+				rr.MustRegister(failingCollector{prometheus.NewDesc("broken_metric", "always fails", nil, nil)})
+				_, c.gerr = rr.Gather() // the error text the handler will report
+				g.real = rr
+			}
+		default:
+			g.fams = nil
+		}
+	}
 	opts := promhttp.HandlerOpts{
 		ErrorHandling:                       promhttp.HandlerErrorHandling(c.policy),
 		DisableCompression:                  c.disable,
@@ -744,6 +772,9 @@ func runRequest(c *reqCase) reqResult {
 	}
 	if c.gerr != nil {
 		res.tags = append(res.tags, map[bool]string{true: "gather:partial", false: "gather:failed"}[len(ref) > 0])
+		if len(ref) == 0 {
+			res.tags = append(res.tags, "nothing-gathered:"+[]string{"nil-slice", "empty-slice", "real-registry"}[c.emptyShape])
+		}
 	}
 	if anyEncFail {
 		res.tags = append(res.tags, "encode-failure")
@@ -885,6 +916,16 @@ func genReqCase(r *emit.Rng, server bool) *reqCase {
 		c.gerr = prometheus.MultiError{errors.New("first"), errors.New("second error\nwith a line break")}
 		if r.Bool() {
 			c.fams = nil
+		}
+	}
+	c.emptyShape = r.Intn(3)
+	if r.Chance(1, 8) { // directed: a total failure in each shape, every policy, with and without compression
+		c.fams = nil
+		c.gerr = errors.New("everything failed")
+		c.policy = []int{0, 1, 1, 1, 2}[r.Intn(5)]
+		if r.Bool() {
+			c.ae = []string{[]string{"gzip", "zstd", "gzip, zstd"}[r.Intn(3)]}
+			c.disable = false
 		}
 	}
 	c.limit = []int{0, 0, -1, 1, 2, 3}[r.Intn(6)]
